@@ -778,6 +778,9 @@ WALK = Bounded(
     "length 12 (20) over 13 tag spellings incl. non-integers, 7 values (str, int, float, enum, texts with | and =), "
     "nested containers, dict items, wrong item types, indices -1/0/1/5; at the end equality with a rebuilt copy and "
     "with modified copies, equality with dicts (framing tags ignored, extra tag), query(), pickle round trip")
+# the walk exercises every operation of the statement against the reference model: when a refactored method leaves the
+# verifier's subset it stands in for the undecided obligations (exit 0 at level exploration, no proof claimed)
+WALK.stands_in = True
 
 PROPERTY = Property(
     "C18", TASKS,
